@@ -69,6 +69,8 @@ NumBigOk(c) == IF BigIn(c) THEN BigGood(c) ELSE IF BigNear(c) THEN c.out = "conv
 \* IEEE binary32 (DPT 14): the grid is supplied by the driver (decok = the decoded value is less than one binary32 step from the given one);
 \* "unrep": inside the declared range (which is unbounded for DPT 14) but beyond the largest binary32 number
 NumF32Ok(c) == CASE c.zone = "in" -> Good(c) [] c.zone = "out" -> c.out = "conv" [] OTHER -> c.out = "conv" \/ Good(c)
+\* a value far beyond every declared range (infinities, NaN, 1e300, 10^400): rejected with the conversion error, whatever the type
+FarOk(c) == c.out = "conv"
 NumOk(c) == CASE c.fam = "fix" -> NumFixOk(c) [] c.fam = "scaled8" -> NumScaledOk(c) [] c.fam = "f16" -> NumF16Ok(c)
               [] c.fam = "big" -> NumBigOk(c) [] c.fam = "f32" -> NumF32Ok(c) [] OTHER -> FALSE
 \* ---------------------------------------------------------------- C10
